@@ -137,13 +137,45 @@ def run(ctx):
     rules.append(r)
 
     # ---------------- SB-addsub
-    r = Rule("SB-addsub", "Add and Subtract are mirror images", floor=1)
-    a, s_ = m.fn(B + "Add"), m.fn(B + "Subtract")
-    wa, ws = astq.nodes_of(a, "WhileStmt")[0], astq.nodes_of(s_, "WhileStmt")[0]
-    ta = a.text(a.nodes[wa]["cond"]) + " :: " + " ; ".join((a.text(a.nodes[x]["cond"]) + " THEN " + a.text(a.nodes[x]["then"])) if a.nodes[x]["k"] == "IfStmt" else a.text(x) for x in a.nodes[a.nodes[wa]["body"]]["ch"])
-    ts = s_.text(s_.nodes[ws]["cond"]) + " :: " + " ; ".join((s_.text(s_.nodes[x]["cond"]) + " THEN " + s_.text(s_.nodes[x]["then"])) if s_.nodes[x]["k"] == "IfStmt" else s_.text(x) for x in s_.nodes[s_.nodes[ws]["body"]]["ch"])
-    mirror = ts.replace("-=", "+=").replace("] < tmp", "] @GT tmp").replace("] > tmp", "] < tmp").replace("@GT", ">")
-    r.ob("Qentem::BigInt", "Add/Subtract loops", mirror == ta, "Subtract's loop with -= -> += and < -> > equals Add's loop: %s" % (mirror == ta), "Include/BigInt.hpp:%d" % a.line)
+    r = Rule("SB-addsub", "Add and Subtract: word loop bounded by MaxIndex(), carry/borrow detected against the saved word, unit carry", floor=2)
+    for name, upd, cmp_ in (("Add", "+=", ">"), ("Subtract", "-=", "<")):
+        g = m.fn(B + name)
+        ctx.note_fn(g)
+        ws = astq.nodes_of(g, "WhileStmt")
+        ok, why = False, "no word loop"
+        if ws:
+            w = ws[0]
+            body = g.nodes[w]["body"]
+            cond = g.text(g.nodes[w]["cond"]).replace(" ", "").replace("this.", "")
+            idx = None
+            saved = None
+            upd_ok = False
+            for x in g.walk(body):
+                nx = g.nodes[x]
+                if nx["k"] == "DeclStmt":
+                    for d in nx["decls"]:
+                        if d.get("init", -1) >= 0 and g.text(d["init"]).replace("this.", "").startswith("storage_["):
+                            saved = d["n"]
+                            idx = g.text(d["init"]).replace("this.", "")[len("storage_["):-1]
+                if nx["k"] == "CompoundAssignOperator" and g.text(nx["ch"][0]).replace("this.", "") == "storage_[%s]" % idx:
+                    upd_ok = nx["op"] == upd
+            test_ok = False
+            for i_ in astq.nodes_of(g, "IfStmt", body):
+                cn = g.nodes[g.strip(g.nodes[i_]["cond"])]
+                if cn["k"] == "BinaryOperator" and cn["op"] in ("<", ">", "<=", ">=") and saved and \
+                        g.text(cn["ch"][0]).replace("this.", "") == "storage_[%s]" % idx and g.text(cn["ch"][1]) == saved:
+                    leaves = any(g.nodes[y]["k"] in ("BreakStmt", "ReturnStmt") for y in g.walk(g.nodes[i_]["then"]))
+                    test_ok = cn["op"] == cmp_ and leaves
+            unit = any(g.nodes[x]["k"] == "BinaryOperator" and g.nodes[x]["op"] == "=" and g.text(g.nodes[x]["ch"][0]) == g.params[0]["n"] and
+                       g.nodes[g.strip_casts(g.nodes[x]["ch"][1])].get("cv", None) == 1 or
+                       (g.nodes[x]["k"] == "BinaryOperator" and g.nodes[x]["op"] == "=" and g.text(g.nodes[x]["ch"][0]) == g.params[0]["n"] and "1" in g.text(g.nodes[x]["ch"][1]))
+                       for x in g.walk(body))
+            step = any(g.nodes[x]["k"] == "UnaryOperator" and g.nodes[x]["op"] == "++" and g.text(g.nodes[x]["ch"][0]) == idx for x in g.walk(body))
+            bound = cond in ("(%s<=MaxIndex())" % idx, "%s<=MaxIndex()" % idx)
+            ok = bool(idx and saved and upd_ok and test_ok and unit and step and bound)
+            why = "loop `%s`; word saved in `%s`; update %s %s; no-%s test `storage_[%s] %s %s` leaves the loop: %s; carry unit 1: %s; ++%s: %s" % (
+                g.text(g.nodes[w]["cond"]), saved, upd, "ok" if upd_ok else "WRONG", "carry" if name == "Add" else "borrow", idx, cmp_, saved, test_ok, unit, idx, step)
+        r.ob(g.q, "%s word loop" % name, ok, why, "Include/BigInt.hpp:%d" % g.line)
     rules.append(r)
 
     # ---------------- PL-bits
